@@ -13,7 +13,7 @@ EXPLANATION = (
     "a fresh tracker per parser and no mutable/interior-mutable static in the crate (type-checked statics census); the assembler's "
     "one-word / two-words-low-first encodings. That every history yields the right width is the composition of these; ids defined "
     "twice are outside the quantifier.")
-EXHAUSTIVE = True
+EXHAUSTIVE = False     # the abstract inputs are a stated finite scope, not the whole input space
 
 PAR = "rspirv::binary::parser"
 TRK = "rspirv::binary::tracker"
